@@ -63,19 +63,24 @@ Record req := mkReq {                                  (* _RequestState, brokerc
   r_cancelled : bool     (* cancelled is not None *)
 }.
 
+(* The request table with the Deferred cells: everything makeRequest / handleResponse / cancel touch. *)
+Record tbl := mkT {
+  t_reqs : list req;             (* self.requests (OrderedDict): insertion order = issue order *)
+  t_dlog : list Z;               (* correlation id of every Deferred ever returned by makeRequest; index = handle *)
+  t_fired : list nat             (* handles of fired request Deferreds *)
+}.
+
 Record state := mkS {
-  s_reqs : list req;             (* self.requests (OrderedDict): insertion order = issue order *)
+  s_t : tbl;
   s_proto : bool;                (* self.proto is not None *)
   s_rxbuf : list Z;              (* self.proto._unprocessed *)
   s_connector : connector_t;     (* self.connector *)
   s_down : down_t;               (* self._dDown *)
   s_failures : nat;              (* self._failures *)
-  s_addr : Z;                    (* (self.host, self.port) *)
-  s_dlog : list Z;               (* correlation id of every Deferred ever returned by makeRequest; index = handle *)
-  s_fired : list nat             (* handles of fired request Deferreds *)
+  s_addr : Z                     (* (self.host, self.port) *)
 }.
 
-Definition init : state := mkS [] false [] CNone DNone 0 0 [] [].     (* __init__, brokerclient.py:100-137 *)
+Definition init : state := mkS (mkT [] [] []) false [] CNone DNone 0 0.     (* __init__, brokerclient.py:100-137 *)
 
 Inductive event :=
 | EMake (rid : Z) (expect : bool) | ECancel (h : nat)
@@ -93,24 +98,21 @@ Inductive output :=
 | OLose | ODef (h : nat) (o : outcome) | OCloseFired | ORaised (k : Z) | OErr (k : Z) (h : nat).
 
 (* ---- field setters ---- *)
-Definition with_reqs (s : state) (x : list req) : state :=
-  mkS x (s_proto s) (s_rxbuf s) (s_connector s) (s_down s) (s_failures s) (s_addr s) (s_dlog s) (s_fired s).
+Definition t_with_reqs (t : tbl) (x : list req) : tbl := mkT x (t_dlog t) (t_fired t).
+Definition with_t (s : state) (x : tbl) : state :=
+  mkS x (s_proto s) (s_rxbuf s) (s_connector s) (s_down s) (s_failures s) (s_addr s).
 Definition with_proto (s : state) (x : bool) : state :=
-  mkS (s_reqs s) x (s_rxbuf s) (s_connector s) (s_down s) (s_failures s) (s_addr s) (s_dlog s) (s_fired s).
+  mkS (s_t s) x (s_rxbuf s) (s_connector s) (s_down s) (s_failures s) (s_addr s).
 Definition with_rxbuf (s : state) (x : list Z) : state :=
-  mkS (s_reqs s) (s_proto s) x (s_connector s) (s_down s) (s_failures s) (s_addr s) (s_dlog s) (s_fired s).
+  mkS (s_t s) (s_proto s) x (s_connector s) (s_down s) (s_failures s) (s_addr s).
 Definition with_connector (s : state) (x : connector_t) : state :=
-  mkS (s_reqs s) (s_proto s) (s_rxbuf s) x (s_down s) (s_failures s) (s_addr s) (s_dlog s) (s_fired s).
+  mkS (s_t s) (s_proto s) (s_rxbuf s) x (s_down s) (s_failures s) (s_addr s).
 Definition with_down (s : state) (x : down_t) : state :=
-  mkS (s_reqs s) (s_proto s) (s_rxbuf s) (s_connector s) x (s_failures s) (s_addr s) (s_dlog s) (s_fired s).
+  mkS (s_t s) (s_proto s) (s_rxbuf s) (s_connector s) x (s_failures s) (s_addr s).
 Definition with_failures (s : state) (x : nat) : state :=
-  mkS (s_reqs s) (s_proto s) (s_rxbuf s) (s_connector s) (s_down s) x (s_addr s) (s_dlog s) (s_fired s).
+  mkS (s_t s) (s_proto s) (s_rxbuf s) (s_connector s) (s_down s) x (s_addr s).
 Definition with_addr (s : state) (x : Z) : state :=
-  mkS (s_reqs s) (s_proto s) (s_rxbuf s) (s_connector s) (s_down s) (s_failures s) x (s_dlog s) (s_fired s).
-Definition with_dlog (s : state) (x : list Z) : state :=
-  mkS (s_reqs s) (s_proto s) (s_rxbuf s) (s_connector s) (s_down s) (s_failures s) (s_addr s) x (s_fired s).
-Definition with_fired (s : state) (x : list nat) : state :=
-  mkS (s_reqs s) (s_proto s) (s_rxbuf s) (s_connector s) (s_down s) (s_failures s) (s_addr s) (s_dlog s) x.
+  mkS (s_t s) (s_proto s) (s_rxbuf s) (s_connector s) (s_down s) (s_failures s) x.
 
 (* ---- the OrderedDict, keyed by correlation id ---- *)
 Definition lookup (rid : Z) (rs : list req) : option req := find (fun r => r_id r =? rid) rs.
@@ -121,11 +123,11 @@ Definition upd (rid : Z) (f : req -> req) (rs : list req) : list req :=
 Definition set_sent (b : bool) (r : req) : req := mkReq (r_id r) (r_h r) (r_expect r) b (r_cancelled r).
 Definition set_cancelled (r : req) : req := mkReq (r_id r) (r_h r) (r_expect r) (r_sent r) true.
 
-Definition is_fired (s : state) (h : nat) : bool := existsb (Nat.eqb h) (s_fired s).
+Definition is_fired (t : tbl) (h : nat) : bool := existsb (Nat.eqb h) (t_fired t).
 
 (* Deferred.callback / errback on the request Deferred of handle h *)
-Definition fire (s : state) (h : nat) (o : outcome) : state * list output :=
-  if is_fired s h then (s, [OErr 1 h]) else (with_fired s (h :: s_fired s), [ODef h o]).
+Definition fire (t : tbl) (h : nat) (o : outcome) : tbl * list output :=
+  if is_fired t h then (t, [OErr 1 h]) else (mkT (t_reqs t) (t_dlog t) (h :: t_fired t), [ODef h o]).
 
 (* self._dDown.callback(None) *)
 Definition fire_down (s : state) : state * list output :=
@@ -135,23 +137,23 @@ Definition fire_down (s : state) : state * list output :=
   end.
 
 (* _sendRequest(tReq), brokerclient.py:365-380 *)
-Definition send_request (s : state) (r : req) : state * list output :=
-  let s1 := with_reqs s (upd (r_id r) (set_sent true) (s_reqs s)) in         (* tReq.sent = now *)
+Definition send_request (t : tbl) (r : req) : tbl * list output :=
+  let t1 := t_with_reqs t (upd (r_id r) (set_sent true) (t_reqs t)) in       (* tReq.sent = now *)
   let w := [OWrite (r_h r) (r_id r)] in                                      (* self.proto.sendString(tReq.request) *)
-  if r_expect r then (s1, w)
+  if r_expect r then (t1, w)
   else                                                                       (* del self.requests[id]; d.callback(None) *)
-    let (s2, o) := fire (with_reqs s1 (del (r_id r) (s_reqs s1))) (r_h r) SuccNone in (s2, w ++ o).
+    let (t2, o) := fire (t_with_reqs t1 (del (r_id r) (t_reqs t1))) (r_h r) SuccNone in (t2, w ++ o).
 
 (* _sendQueued, brokerclient.py:382-386: iterate over a snapshot of the values, in dict order *)
-Fixpoint send_each (s : state) (snap : list req) : state * list output :=
+Fixpoint send_each (t : tbl) (snap : list req) : tbl * list output :=
   match snap with
-  | [] => (s, [])
+  | [] => (t, [])
   | r :: rest =>
-      if r_sent r then send_each s rest
-      else let (s1, o1) := send_request s r in
-           let (s2, o2) := send_each s1 rest in (s2, o1 ++ o2)
+      if r_sent r then send_each t rest
+      else let (t1, o1) := send_request t r in
+           let (t2, o2) := send_each t1 rest in (t2, o1 ++ o2)
   end.
-Definition send_queued (s : state) : state * list output := send_each s (s_reqs s).
+Definition send_queued (t : tbl) : tbl * list output := send_each t (t_reqs t).
 
 (* tryConnect, brokerclient.py:421-429 *)
 Definition try_connect (s : state) : state * list output :=
@@ -160,69 +162,71 @@ Definition try_connect (s : state) : state * list output :=
 (* _connect, brokerclient.py:414-462: self._failures = 0; tryConnect() *)
 Definition connect (s : state) : state * list output := try_connect (with_failures s 0).
 
+Definition lift (s : state) (x : tbl * list output) : state * list output := (with_t s (fst x), snd x).
+
 (* makeRequest, brokerclient.py:167-246 *)
 Definition make_request (s : state) (rid : Z) (expect : bool) : state * list output :=
-  match lookup rid (s_reqs s) with
+  let t := s_t s in
+  match lookup rid (t_reqs t) with
   | Some _ => (s, [ORaised 1])                                               (* 211-219 *)
   | None =>
-      let h := length (s_dlog s) in
-      let s0 := with_dlog s (s_dlog s ++ [rid]) in
+      let h := length (t_dlog t) in
       match s_down s with
       | DNone =>
           let r := mkReq rid h expect false false in
-          let s1 := with_reqs s0 (s_reqs s0 ++ [r]) in                       (* 230-236 *)
-          if s_proto s1 then send_request s1 r                               (* 239-242 *)
-          else match s_connector s1 with
-               | CNone => connect s1                                         (* 244-245 *)
-               | _ => (s1, [])
+          let t1 := mkT (t_reqs t ++ [r]) (t_dlog t ++ [rid]) (t_fired t) in (* 230-236 *)
+          if s_proto s then lift s (send_request t1 r)                       (* 239-242 *)
+          else match s_connector s with
+               | CNone => connect (with_t s t1)                              (* 244-245 *)
+               | _ => (with_t s t1, [])
                end
-      | _ => fire s0 h FailClosed                                            (* 222-227: return fail(ClientError) *)
+      | _ => lift s (fire (mkT (t_reqs t) (t_dlog t ++ [rid]) (t_fired t)) h FailClosed)   (* 222-227: return fail(ClientError) *)
       end
   end.
 
 (* d.cancel() on handle h; the canceller is _cancelRequest(rid), brokerclient.py:388-400 *)
-Definition cancel (s : state) (h : nat) : state * list output :=
-  match nth_error (s_dlog s) h with
-  | None => (s, [])                                                          (* no such Deferred *)
+Definition cancel (t : tbl) (h : nat) : tbl * list output :=
+  match nth_error (t_dlog t) h with
+  | None => (t, [])                                                          (* no such Deferred *)
   | Some rid =>
-      if is_fired s h then (s, [])                                           (* already called: nothing *)
+      if is_fired t h then (t, [])                                           (* already called: nothing *)
       else
-        match lookup rid (s_reqs s) with
-        | None => (s, [ORaised 5])                                           (* self.requests[correlationId] KeyError *)
+        match lookup rid (t_reqs t) with
+        | None => (t, [ORaised 5])                                           (* self.requests[correlationId] KeyError *)
         | Some r =>
-            let s1 := if r_sent r
-                      then with_reqs s (upd rid set_cancelled (s_reqs s))    (* tombstone *)
-                      else with_reqs s (del rid (s_reqs s)) in
-            fire s1 h FailCancelled                                          (* if not self.called: errback(CancelledError) *)
+            let t1 := if r_sent r
+                      then t_with_reqs t (upd rid set_cancelled (t_reqs t))  (* tombstone *)
+                      else t_with_reqs t (del rid (t_reqs t)) in
+            fire t1 h FailCancelled                                          (* if not self.called: errback(CancelledError) *)
         end
   end.
 
 (* handleResponse, brokerclient.py:336-361 *)
-Definition handle_response (s : state) (frame : list Z) : state * list output :=
+Definition handle_response (t : tbl) (frame : list Z) : tbl * list output :=
   match corr_id frame with
-  | None => (s, [ORaised 4])
+  | None => (t, [ORaised 4])
   | Some cid =>
-      match lookup cid (s_reqs s) with
-      | None => (s, [])                                                      (* unexpected id: logged *)
+      match lookup cid (t_reqs t) with
+      | None => (t, [])                                                      (* unexpected id: logged *)
       | Some r =>
-          let s1 := with_reqs s (del cid (s_reqs s)) in                      (* pop *)
-          if r_cancelled r then (s1, [])                                     (* late reply to a cancelled request: logged *)
-          else fire s1 (r_h r) (Succ frame)
+          let t1 := t_with_reqs t (del cid (t_reqs t)) in                    (* pop *)
+          if r_cancelled r then (t1, [])                                     (* late reply to a cancelled request: logged *)
+          else fire t1 (r_h r) (Succ frame)
       end
   end.
 
-Fixpoint deliver (s : state) (frames : list (list Z)) : state * list output :=
+Fixpoint deliver (t : tbl) (frames : list (list Z)) : tbl * list output :=
   match frames with
-  | [] => (s, [])
-  | f :: r => let (s1, o1) := handle_response s f in
-              let (s2, o2) := deliver s1 r in (s2, o1 ++ o2)
+  | [] => (t, [])
+  | f :: r => let (t1, o1) := handle_response t f in
+              let (t2, o2) := deliver t1 r in (t2, o1 ++ o2)
   end.
 
 (* KafkaProtocol.dataReceived(chunk) *)
 Definition data_in (s : state) (chunk : list Z) : state * list output :=
   let (fs, e) := data_received ok4 (s_rxbuf s) chunk in
-  let (s1, o1) := deliver s fs in
-  let s2 := with_rxbuf s1 (rx_newbuf (s_rxbuf s) chunk e) in
+  let (t1, o1) := deliver (s_t s) fs in
+  let s2 := with_rxbuf (with_t s t1) (rx_newbuf (s_rxbuf s) chunk e) in
   match e with
   | RxLimit _ => (s2, o1 ++ [OLose])                                         (* lengthLimitExceeded, _protocol.py:53-60 *)
   | RxFuel => (s2, o1 ++ [OErr 3 0])
@@ -230,25 +234,25 @@ Definition data_in (s : state) (chunk : list Z) : state * list output :=
   end.
 
 (* close(): fail the remaining requests, last inserted first (popitem(True)), brokerclient.py:298-301 *)
-Fixpoint fail_all (s : state) (rs : list req) : state * list output :=
+Fixpoint fail_all (t : tbl) (rs : list req) : tbl * list output :=
   match rs with
-  | [] => (s, [])
+  | [] => (t, [])
   | r :: rest =>
-      if r_cancelled r then fail_all s rest
-      else let (s1, o1) := fire s (r_h r) FailClosed in
-           let (s2, o2) := fail_all s1 rest in (s2, o1 ++ o2)
+      if r_cancelled r then fail_all t rest
+      else let (t1, o1) := fire t (r_h r) FailClosed in
+           let (t2, o2) := fail_all t1 rest in (t2, o1 ++ o2)
   end.
 
 Definition step (s : state) (e : event) : state * list output :=
   match e with
   | EMake rid expect => make_request s rid expect
-  | ECancel h => cancel s h
+  | ECancel h => lift s (cancel (s_t s) h)
   | EConnOk =>                                                               (* cbConnect, 431-439 *)
       match s_connector s with
       | CAttempt =>
           let s1 := with_rxbuf (with_proto (with_connector (with_failures s 0) CNone) true) [] in
           match s_down s1 with
-          | DNone => send_queued s1
+          | DNone => lift s1 (send_queued (s_t s1))
           | _ => (s1, [OLose])
           end
       | _ => (s, [])
@@ -271,8 +275,8 @@ Definition step (s : state) (e : event) : state * list output :=
       end
   | ELost =>                                                                 (* _connectionLost, 308-334 *)
       if s_proto s then
-        let rs := map (set_sent false) (filter (fun r => negb (r_cancelled r)) (s_reqs s)) in
-        let s1 := with_reqs (with_rxbuf (with_proto s false) []) rs in
+        let rs := map (set_sent false) (filter (fun r => negb (r_cancelled r)) (t_reqs (s_t s))) in
+        let s1 := with_t (with_rxbuf (with_proto s false) []) (t_with_reqs (s_t s) rs) in
         match s_down s1 with
         | DNone => match rs with [] => (s1, []) | _ => connect s1 end
         | _ => fire_down s1
@@ -294,8 +298,8 @@ Definition step (s : state) (e : event) : state * list output :=
                      let (s', o') := fire_down (with_connector s0 CStale) in (s', OCancelTimer :: o')
                  | CStale => (s0, [])
                  end in
-          let (s2, o2) := fail_all (with_reqs s1 []) (rev (s_reqs s1)) in
-          (s2, o1 ++ o2)
+          let (t2, o2) := fail_all (t_with_reqs (s_t s1) []) (rev (t_reqs (s_t s1))) in
+          (with_t s1 t2, o1 ++ o2)
       | _ => (s, [ORaised 2])                                                (* assert self._dDown is None *)
       end
   | EDisconnect => if s_proto s then (s, [OLose]) else (s, [])               (* 248-258 *)
